@@ -1,6 +1,7 @@
 """Regenerate /verif/MANIFEST.json from the property modules that exist (run through ./check's environment):
    PYTHONPATH=/verif:/repo /venv/bin/python -B -W ignore tools/gen_manifest.py"""
 import json, os, importlib, sys
+from vf.engines import sched; sched.install()   # SCHED props need the patches before coba is imported
 VERIF = os.path.dirname(os.path.dirname(os.path.abspath(__file__)))
 props = [json.loads(l) for l in open(os.path.join(VERIF, 'properties.jsonl'))]
 PENDING = json.load(open(os.path.join(VERIF, 'tools', 'pending.json')))
